@@ -184,6 +184,10 @@ PROGRAMS = {
   "rebind-same-value-set!": "(fn [x y z probe] (binding [*a* x *b* y] (binding [*a* x] (set! *a* z) (probe 1)) (probe 2)))",
   "with-bindings-same-value-set!": "(fn [x y z probe] (binding [*a* x] (with-bindings* {(var *a*) x} (fn [] (set! *a* z) (probe 1))) (probe 2)))",
   "bound-fn-on-creating-thread-set!": "(fn [x y z probe] (binding [*a* x *b* y] ((bound-fn* (fn [] (set! *b* z) (probe 1)))) (probe 2)))",
+  # a capture of the thread's bindings (bound-fn*, get-thread-bindings) taken before and after a set! in the same frame
+  "bound-fn-before-and-after-set!": "(fn [x y z probe] (binding [*a* x *b* y] (let [f1 (bound-fn* (fn [] (probe 1)))] (set! *a* z) (let [f2 (bound-fn* (fn [] (probe 2)))] (f1) (f2) (probe 3)))))",
+  "get-thread-bindings-around-set!": "(fn [x y z probe] (binding [*a* x] (let [m1 (get-thread-bindings)] (set! *a* y) (let [m2 (get-thread-bindings)] (set! *a* z) (with-bindings* m2 (fn [] (probe 1))) (with-bindings* m1 (fn [] (probe 2))) (with-bindings* (get-thread-bindings) (fn [] (probe 3))) (probe 4)))))",
+  "capture-set!-pop-capture": "(fn [x y z probe] (binding [*a* x] (get-thread-bindings) (binding [*b* y] (set! *a* z) ((bound-fn* (fn [] (probe 1))))) ((bound-fn* (fn [] (probe 2)))) (probe 3)))",
 }
 def expected(name, x, y, z):
     A0, B0, C0, P0, V0 = kw.keyword("a0"), kw.keyword("b0"), kw.keyword("c0"), kw.keyword("p0"), 0
@@ -205,6 +209,9 @@ def expected(name, x, y, z):
       "rebind-same-value-set!": [(1, w(a=z, b=y)), (2, w(a=x, b=y))],
       "with-bindings-same-value-set!": [(1, w(a=z)), (2, w(a=x))],
       "bound-fn-on-creating-thread-set!": [(1, w(a=x, b=z)), (2, w(a=x, b=y))],
+      "bound-fn-before-and-after-set!": [(1, w(a=x, b=y)), (2, w(a=z, b=y)), (3, w(a=z, b=y))],
+      "get-thread-bindings-around-set!": [(1, w(a=y)), (2, w(a=x)), (3, w(a=z)), (4, w(a=z))],
+      "capture-set!-pop-capture": [(1, w(a=z, b=y)), (2, w(a=z)), (3, w(a=z))],
     }[name]
 def run_program(name, x, y, z):
     seen = []
@@ -226,7 +233,7 @@ def history_specs(timeout):
     from ..chx.lisp import harness
     import re
     names = re.findall(r'^  "([^"]+)":', HIST, flags=re.M)
-    names = sorted(set(names), key=names.index)[:11]
+    names = sorted(set(names), key=names.index)[:14]
     out = []
     for nm in names:
         body = '''    seen, after = run_program(NAME, x, y, z)
